@@ -182,7 +182,8 @@ func (fc *FuncCtx) evalBuiltin(c *ast.CallExpr, name string, st *State) []*Value
 			return []*Value{scalar(shInt, t)}
 		case KMapRef:
 			card := e.declFun("map.len", []string{"(Array " + e.leafSorts(v.Sh.Key)[0] + " Bool)"}, "Int")
-			t := ite(eq(v.T(), "0"), "0", app(card, e.mapDom(st, v)))
+			dk, dsh := e.mapDomKey(v.Sh)
+			t := ite(eq(v.T(), "0"), "0", app(card, e.heapRead(st, dk, dsh, v.T()).T()))
 			st.assume("(<= 0 " + t + ")")
 			return []*Value{scalar(shInt, t)}
 		}
@@ -546,7 +547,13 @@ func (fc *FuncCtx) applyContract(c *ast.CallExpr, st *State, ct *Contract, fn *t
 		if en.Profile != "" && en.Profile != fc.profile {
 			continue
 		}
-		st.assume(mkEnv(st, pre, rnames).evalBool(en.Expr))
+		env := mkEnv(st, pre, rnames)
+		env.oldNames = names
+		// a postcondition that speaks about the callee's own ghost variables is checked in the callee
+		// but cannot be used by callers: it is skipped here (nothing is assumed)
+		if t, ok := fc.evalEnsuresForCaller(env, en); ok {
+			st.assume(t)
+		}
 	}
 	if ct.Trusted != "" || ct.Extern {
 		e.assumed["assumed contract: "+ct.Key] = true
@@ -728,7 +735,7 @@ func (fc *FuncCtx) specialCall(c *ast.CallExpr, st *State, full string, recv *Va
 		v := scalar(shErr, e.fresh("err", "Int"))
 		st.assume("(> " + v.T() + " 0)")
 		// freshly made errors are not API errors
-		st.assume(app(e.declFun("err.local", []string{"Int"}, "Bool"), v.T()))
+		st.assume(app(e.declFun(smtSym("sf.errLocal"), []string{"Int"}, "Bool"), v.T()))
 		return []*Value{v}, true
 	case "fmt:Sprint":
 		return []*Value{scalar(shStr, e.fresh("sprint", "Str"))}, true
@@ -1222,12 +1229,22 @@ func (fc *FuncCtx) execRange(x *ast.RangeStmt, st *State) *State {
 		listName := fmt.Sprintf("$list%d", ord)
 		st.ghost[idxName] = scalar(shInt, "0")
 		st.ghost[listName] = lst
+		alias := ""
+		if ls != nil && ls.Index != "" {
+			alias = ls.Index
+			st.ghost[alias] = scalar(shInt, "0")
+		}
 		if keyObj != nil {
 			fc.declareVar(st, keyObj, scalar(shInt, "0"))
 		}
 		implicit := func(h *State) []string {
 			i := h.ghost[idxName].T()
 			fs := []string{"(<= 0 " + i + ")", "(<= " + i + " " + sliceLen(lst) + ")"}
+			if alias != "" {
+				if av, ok := h.ghost[alias]; ok {
+					fs = append(fs, eq(av.T(), i))
+				}
+			}
 			if keyObj != nil {
 				if kv, ok := fc.readVar(h, keyObj); ok {
 					fs = append(fs, eq(kv.T(), i))
@@ -1249,6 +1266,9 @@ func (fc *FuncCtx) execRange(x *ast.RangeStmt, st *State) *State {
 		}
 		iter := func(h *State) ([]*State, []*State) {
 			i := h.ghost[idxName].T()
+			if alias != "" {
+				h.ghost[alias] = h.ghost[idxName]
+			}
 			c := "(< " + i + " " + sliceLen(lst) + ")"
 			ex := h.clone()
 			ex.pc = append(ex.pc, not(c))
@@ -1272,6 +1292,9 @@ func (fc *FuncCtx) execRange(x *ast.RangeStmt, st *State) *State {
 			if cont != nil {
 				ni := "(+ " + cont.ghost[idxName].T() + " 1)"
 				cont.ghost[idxName] = scalar(shInt, ni)
+				if alias != "" {
+					cont.ghost[alias] = cont.ghost[idxName]
+				}
 				if keyObj != nil {
 					fc.writeVar(cont, keyObj, scalar(shInt, ni))
 				}
@@ -1412,4 +1435,17 @@ func (fc *FuncCtx) evalRequiresThroughIface(env *SpecEnv, r *Clause) (goal strin
 		}
 	}()
 	return env.evalBool(r.Expr), false
+}
+
+func (fc *FuncCtx) evalEnsuresForCaller(env *SpecEnv, en *Clause) (t string, ok bool) {
+	defer func() {
+		if rec := recover(); rec != nil {
+			if se, isSpec := rec.(specErr); isSpec && strings.HasPrefix(string(se), "unknown name") {
+				ok = false
+				return
+			}
+			panic(rec)
+		}
+	}()
+	return env.evalBool(en.Expr), true
 }
